@@ -38,7 +38,7 @@ MinOf(S) == CHOOSE x \in S : \A y \in S : x <= y
 
 -----------------------------------------------------------------------------
 (* Values.  A data column has a kind and a merge function:                  *)
-(*   int  : integers;          merge add | affine | replace                 *)
+(*   int  : integers;          merge add | affine | sat | replace           *)
 (*   str  : sequences of small integers (bytes); merge replace | concat     *)
 (*   tok  : opaque tokens (TLC strings), put only                           *)
 (*   enum : tokens, put only, interned by a 32-bit hash in the code         *)
@@ -52,6 +52,7 @@ Zero(desc) == CASE desc.k = "int"  -> 0
 
 MergeFn(m, a, d) == CASE m = "add"     -> a + d
                       [] m = "affine"  -> 2 * a + d
+                      [] m = "sat"     -> IF a + d > 8 THEN 8 ELSE a + d     \* saturating counter (has fixed points)
                       [] m = "concat"  -> a \o d
                       [] OTHER         -> d          \* "replace"
 
